@@ -1071,8 +1071,15 @@ fn main() {
                         let before = probe_ctr.load(Ordering::SeqCst);
                         let pe = guarded(|| tqp.explain(searcher, addr));
                         let viol = probe_ctr.load(Ordering::SeqCst) - before;
-                        let same = match (&expl, &pe) { (Ok(Ok(a)), Ok(Ok(b))) => a.value().to_bits() == b.value().to_bits(), (Ok(Err(_)), Ok(Err(_))) => true, _ => false };
-                        out.spec_checked(same, json!({"what": "explain of the probe-wrapped query differs from explain of the query", "case": desc}));
+                        // the wrapped query is the same query with other scorer types (no TermScorer specialisations): for a single
+                        // scoring clause its explain value is bit-identical; for several the additions of the combiners /
+                        // intersections may be done in another order, so the usual rounding-of-the-sum rule applies
+                        let same = match (&expl, &pe) {
+                            (Ok(Ok(a)), Ok(Ok(b))) => if single { a.value().to_bits() == b.value().to_bits() } else { ulps(a.value(), b.value()) <= tol },
+                            (Ok(Err(_)), Ok(Err(_))) => true,
+                            _ => false,
+                        };
+                        out.spec_checked(same, json!({"what": "explain of the probe-wrapped query differs from explain of the query", "plain": format!("{:?}", expl.as_ref().map(|r| r.as_ref().map(|e| e.value()).map_err(|e| e.to_string()))), "probed": format!("{:?}", pe.as_ref().map(|r| r.as_ref().map(|e| e.value()).map_err(|e| e.to_string()))), "case": desc}));
                         out.count("probe_explains", 1);
                         if viol > 0 {
                             let firsts = firsts_cache.entry(o).or_insert_with(|| {
